@@ -183,7 +183,17 @@ func concExplore(t *testing.T, prop, sub string, bound int, qb, tb time.Duration
 	r.Bounds["max_preemptions"] = bound
 	r.Assume("CPRNG reads are one atomic step in this harness (their own interleavings: sub-check cprng)")
 	deadline := time.Now().Add(time.Duration(r.Bounds["budget_s"].(float64)) * time.Second)
-	for hi, h := range concHarnesses() {
+	hs := concHarnesses()
+	if prop == "C07" && sub == "concurrent-cprng-instrumented" {
+		hs = []concHarness{
+			{"prove|prove (warm cache)", true, []string{"prove", "prove"}},
+			{"prove|prove (cold cache)", false, []string{"prove", "prove"}},
+			{"prepare|prove (warm cache)", true, []string{"prepare", "prove"}},
+		}
+		r.Assumptions = nil
+		r.Assume("the CPRNG reservation step is instrumented too in this harness")
+	}
+	for hi, h := range hs {
 		var results []concProof
 		var cred *Credential
 		label := fmt.Sprintf("%s/%d", sub, hi)
